@@ -101,6 +101,9 @@ func (c *ShipConnection) handshakeHello_PendingInit() {
 		return
 	}
 
+	// the first hello message of the remote side is still to come
+	c.setHelloOutstanding(true)
+
 	c.setState(model.SmeHelloStatePendingListen, nil)
 
 	if !c.infoProvider.AllowWaitingForTrust(c.remoteSKI) {
@@ -129,6 +132,8 @@ func (c *ShipConnection) handshakeHello_PendingListen(timeout bool, message []by
 	}
 
 	hello := helloReturnMsg.ConnectionHello
+
+	c.setHelloOutstanding(false)
 
 	switch hello.Phase {
 	case model.ConnectionHelloPhaseTypeReady:
@@ -228,6 +233,9 @@ func (c *ShipConnection) handshakeHello_PendingProlongationRequest() {
 		return
 	}
 
+	// the reply is still to come
+	c.setHelloOutstanding(true)
+
 	// TODO: we need to set the timer to the last received waiting value
 	c.setHandshakeTimer(timeoutTimerTypeProlongRequestReply, tHelloInit)
 }
@@ -242,6 +250,9 @@ func (c *ShipConnection) handshakeHello_PendingTimeout() {
 		c.endHandshakeWithError(err)
 		return
 	}
+
+	// the reply is still to come
+	c.setHelloOutstanding(true)
 
 	lastReceivedWaitingValue := c.getLastReceivedWaitingValue()
 	if lastReceivedWaitingValue == 0 {
